@@ -1,19 +1,20 @@
 #!/bin/sh
 # tools/regress_seeded.sh [-j N] [dir...] : run every seeded change's property check against it, each in its own scratch worktree
 # of /repo (CIJ_REPO), leaving /repo untouched.  One line per change; "MISSED" if the check exits 0.  N jobs in parallel (default 4).
+# CHECK_ID=<ID> in the environment runs that property's check instead of the change's own.
 J=4
 if [ "$1" = "-j" ]; then J=$2; shift 2; fi
 [ $# -eq 0 ] && set -- /verif/seeded/*/
 one() {
-  d=${1%/}; name=$(basename $d); id=${name%%-*}
+  d=${1%/}; name=$(basename $d); id=${CHECK_ID:-${name%%-*}}
   W=/tmp/cijverif.regress.$$.$name
   git -C /repo worktree add -q --detach $W HEAD 2>/dev/null || { echo "$name: cannot create worktree"; return; }
   if (cd $W && git apply $d/patch.diff 2>/dev/null); then
     out=/tmp/cijverif.reg.$$.$name
     (cd /verif && PYTHONPATH=$W CIJ_REPO=$W ./check $id --tier quick > $out 2>&1); rc=$?
     case $rc in
-      1) echo "$name: caught ($(grep -c '^VIOLATION' $out) lines) $(grep '^  ->' $out | head -1 | cut -c1-120)";;
-      0) echo "$name: MISSED";;
+      1) echo "$name: [$id] caught ($(grep -c '^VIOLATION' $out) lines) $(grep '^  ->' $out | head -1 | cut -c1-120)";;
+      0) echo "$name: [$id] MISSED";;
       *) echo "$name: MACHINERY rc=$rc $(tail -1 $out | cut -c1-160)";;
     esac
     rm -f $out
